@@ -42,13 +42,29 @@ theorem Inv.of_nonraw {P : Params} {h h' : Heap} {o : Sketch} {ob : Nat} (inv : 
       · rw [e]; exact iat.nonraw j h1 h2
       · exact e.2
 
+/-- the bound on the number of levels in terms of the recorded weight -/
+def PW (s : Sketch) : Prop := s.numLevels = 1 ∨ 2 ^ (s.numLevels - 1) ≤ W s
+
+theorem PW.step {s s' : Sketch} (hw : W s' = W s + 1) (hg : LevelGrowth s s') (p : PW s) : PW s' := by
+  unfold PW at *
+  unfold LevelGrowth at hg
+  rcases hg with e | ⟨e, hge⟩
+  · rw [e]
+    rcases p with e' | e'
+    · exact Or.inl e'
+    · right; omega
+  · right
+    rw [e, Nat.add_sub_cancel]
+    omega
+
 theorem mergeStep_spec (P : Params) (hP : P.OK) (n0 : Nat) (ids0 : List Nat) (s o : Sketch) (b : Nat) (h : Heap)
     (ctx : MCtx P n0 ids0 s o b h) (ob : Nat) (hob : o.items = some ob) (byMove : Bool) (hA : Heap)
     (hAid : hA.ids = ids0) (hAnx : hA.next = n0) (i : Nat) (acc : Sketch × List Bool) (ba : Nat) (h1 : Heap)
     (ss : SSide (foot (owned s ++ owned o) n0) hA h1 s acc.1 b ba) (os : OSide P h1 o ob byMove i)
     (hi : i < o.itemsSize) :
     SafeF (foot (owned s ++ owned o) n0) h1 (mergeStep byMove ob i acc h1)
-      (fun r h' => ∃ ba', SSide (foot (owned s ++ owned o) n0) hA h' s r.1 b ba' ∧ OSide P h' o ob byMove (i + 1)) := by
+      (fun r h' => ∃ ba', SSide (foot (owned s ++ owned o) n0) hA h' s r.1 b ba' ∧ OSide P h' o ob byMove (i + 1) ∧
+        (PW acc.1 → PW r.1) ∧ W r.1 = W acc.1 + 1) := by
   obtain ⟨hself_lt, hblt, hbself, hbi, hviewf, hof⟩ := ctx.static
   obtain ⟨sa, ca⟩ := acc
   simp only at ss
@@ -76,9 +92,9 @@ theorem mergeStep_spec (P : Params) (hP : P.OK) (n0 : Nat) (ids0 : List Nat) (s 
   simp only
   apply SafeF.bind' (internalUpdate_spec (S := foot (owned s ++ owned o) n0) sa ca h1 hSba
     (fun x hx => foot_new (by omega)) io hm2 hbalt hwf1)
-  intro r h2 ⟨b1, hb1, lok1, e0, il2, hidx, re12, sm12, _, hSb1⟩ _
+  intro r h2 ⟨b1, hb1, lok1, e0, il2, hidx, re12, sm12, _, hSb1, hw12, hg12⟩ _
   obtain ⟨s1, index, c1⟩ := r
-  simp only at hb1 lok1 e0 il2 hidx sm12 ⊢
+  simp only at hb1 lok1 e0 il2 hidx sm12 hw12 hg12 ⊢
   apply step_deref_eq hb1
   have hn2 := re12.next
   have hb1b : b1 = ba ∨ h1.next ≤ b1 := by
@@ -99,9 +115,10 @@ theorem mergeStep_spec (P : Params) (hP : P.OK) (n0 : Nat) (ids0 : List Nat) (s 
   -- the state after the item went into slot `index` of `b1`, whatever else happened to cell `(ob, i)`
   have fin : ∀ h3, SameBut h2 h3 (fun b' j => (b' = ob ∧ j = i) ∨ (b' = b1 ∧ j = index)) →
       (∃ w, stAt h3 b1 index = .live w) → OSide P h3 o ob byMove (i + 1) →
-      ∃ ba', SSide (foot (owned s ++ owned o) n0) hA h3 s s1 b ba' ∧ OSide P h3 o ob byMove (i + 1) := by
+      ∃ ba', SSide (foot (owned s ++ owned o) n0) hA h3 s s1 b ba' ∧ OSide P h3 o ob byMove (i + 1) ∧
+        (PW sa → PW s1) ∧ W s1 = W sa + 1 := by
     intro h3 sb3 hl3 os3
-    refine ⟨b1, ⟨⟨hb1, lok1, ?_⟩, sm.trans sm12, ?_, ?_, ?_, ?_, hSb1⟩, os3⟩
+    refine ⟨b1, ⟨⟨hb1, lok1, ?_⟩, sm.trans sm12, ?_, ?_, ?_, ?_, hSb1⟩, os3, PW.step hw12 hg12, hw12⟩
     · rw [e0]
       refine ⟨sb3.cells _ _ il2.cells, fun j hj => ?_, fun j h1' h2' => ?_⟩
       · rw [sb3.st _ _ (fun x => by
@@ -186,9 +203,10 @@ theorem Inv.transfer' {P : Params} {h h' : Heap} {o : Sketch} (inv : Inv P h o)
 def MHLSpec (P : Params) (n0 : Nat) (s o : Sketch) (b : Nat) (byMove : Bool) (hA : Heap) : Prop :=
   ∀ (sa : Sketch) (ca : List Bool) (ba : Nat) (h1 : Heap) (finalN : Nat),
     SSide (foot (owned s ++ owned o) n0) hA h1 s sa b ba → Inv P h1 o → (byMove = false → Usable P h1 o) →
+    W sa + W o = finalN + pop o.levels 0 → PW sa → finalN < 2 ^ 64 →
     SafeF (foot (owned s ++ owned o) n0) h1 (mergeHigherLevels sa o false finalN ca h1)
       (fun r h' => (∃ ba', SSide (foot (owned s ++ owned o) n0) hA h' s r.1 b ba') ∧ Inv P h' o ∧
-        (byMove = false → Usable P h' o))
+        (byMove = false → Usable P h' o) ∧ (r.1.numLevels = 1 ∨ 2 ^ (r.1.numLevels - 1) ≤ finalN))
 
 /-- the state after the min/max update of `merge` -/
 structure AfterMM (h hA : Heap) (s o : Sketch) (byMove : Bool) : Prop where
@@ -198,7 +216,8 @@ structure AfterMM (h hA : Heap) (s o : Sketch) (byMove : Bool) : Prop where
 
 theorem mergeTail_spec (P : Params) (hP : P.OK) (n0 : Nat) (ids0 : List Nat) (s o : Sketch) (b : Nat) (h : Heap)
     (ctx : MCtx P n0 ids0 s o b h) (byMove : Bool) (coins : List Bool) (hon : o.n ≠ 0) (hA : Heap)
-    (amm : AfterMM h hA s o byMove) (hml : o.numLevels ≥ 2 → MHLSpec P n0 s o b byMove hA) :
+    (amm : AfterMM h hA s o byMove) (hml : o.numLevels ≥ 2 → MHLSpec P n0 s o b byMove hA)
+    (h64 : o.numLevels ≥ 2 → s.n + o.n < 2 ^ 64) :
     SafeF (foot (owned s ++ owned o) n0) hA (mergeTail s o byMove coins hA)
       (fun r h'' => Usable P h'' r.1 ∧ Inv P h'' o ∧ (byMove = false → Usable P h'' o) ∧
         (∀ x, x ∈ owned r.1 → x ∉ owned o) ∧ Owns h'' ids0 (owned s ++ owned o) (owned r.1 ++ owned o) n0) := by
@@ -242,22 +261,36 @@ theorem mergeTail_spec (P : Params) (hP : P.OK) (n0 : Nat) (ids0 : List Nat) (s 
   have h1t : o.levels.getD 1 0 ≤ o.itemsSize := loko.le_top 1 (by omega)
   have loop := TripleS.foldUp (n0 := 0) (S := foot (owned s ++ owned o) n0)
     (fun i (acc : Sketch × List Bool) h' => ∃ ba, SSide (foot (owned s ++ owned o) n0) hA h' s acc.1 b ba ∧
-      OSide P h' o ob byMove i)
+      OSide P h' o ob byMove i ∧ PW acc.1 ∧ W acc.1 + o.levels.getD 0 0 = W s + i)
     (mergeStep byMove ob) (o.levels.getD 1 0 - o.levels.getD 0 0) (o.levels.getD 0 0) (s, coins) ?_
-  · apply SafeF.bind_triple loop (Nat.zero_le _) ⟨b, ss0, os0⟩
-    intro acc h1 ⟨ba, ss1, os1⟩ _
+  · have hpw0 : PW s := by
+      unfold PW W; rw [ctx.us.wt]; exact ctx.us.pw
+    apply SafeF.bind_triple loop (Nat.zero_le _) ⟨b, ss0, os0, hpw0, rfl⟩
+    intro acc h1 ⟨ba, ss1, os1, hpw1, hw1⟩ _
     obtain ⟨sa, ca⟩ := acc
-    simp only at ss1 ⊢
+    simp only at ss1 hpw1 hw1 ⊢
     have hfn : s.n + o.n ≠ 0 := by omega
+    have hWs : W s = s.n := ctx.us.wt
+    have hWo : W o = o.n := ctx.uo.wt
+    have hpwf : sumSampleWeights sa.numLevels sa.levels = s.n + o.n → (sa.numLevels = 1 ∨ 2 ^ (sa.numLevels - 1) ≤ s.n + o.n) := by
+      intro e
+      unfold PW W at hpw1
+      rw [e] at hpw1
+      exact hpw1
     by_cases hlv : o.numLevels ≥ 2
     · rw [if_pos hlv]
-      apply SafeF.bind' (hml hlv sa ca ba h1 (s.n + o.n) ss1 os1.inv os1.usable)
-      intro r h2 ⟨⟨ba', ss2⟩, io2, uo2⟩ _
+      apply SafeF.bind' (hml hlv sa ca ba h1 (s.n + o.n) ss1 os1.inv os1.usable
+        (by simp only [pop, Nat.zero_add]; omega) hpw1 (h64 hlv))
+      intro r h2 ⟨⟨ba', ss2⟩, io2, uo2, hpw2⟩ _
       obtain ⟨s2, c2⟩ := r
       exact mergeFinish_spec P n0 ids0 s o b h hA h2 s2 ba' c2 byMove (s.n + o.n) ctx hAid hAnx ss2 io2 uo2 hfn
+        (fun _ => hpw2)
     · rw [if_neg hlv, pure_bind_apply]
       exact mergeFinish_spec P n0 ids0 s o b h hA h1 sa ba ca byMove (s.n + o.n) ctx hAid hAnx ss1 os1.inv os1.usable hfn
-  · intro i acc hi1 hi2 h1 _ ⟨ba, ss1, os1⟩
-    exact mergeStep_spec P hP n0 ids0 s o b h ctx ob hob byMove hA hAid hAnx i acc ba h1 ss1 os1 (by omega)
+        hpwf
+  · intro i acc hi1 hi2 h1 _ ⟨ba, ss1, os1, hpw1, hw1⟩
+    refine (mergeStep_spec P hP n0 ids0 s o b h ctx ob hob byMove hA hAid hAnx i acc ba h1 ss1 os1 (by omega)).mono ?_
+    intro r h' ⟨ba', ss', os', hp', hw'⟩
+    exact ⟨ba', ss', os', hp' hpw1, by omega⟩
 
 end DS.Life.Kll
